@@ -767,3 +767,22 @@ mod f39_inherent_from_mut_bytes_unchecked {
         assert_eq!(msg.items.as_slice(), &[1, 2, 3]);
     }
 }
+
+/// Finding 40 (C02), same family: the validator / initialiser of an unsized enum named the items of the generated tag helper by type
+/// path (`<MsgTag>::validate_unchecked`, `MsgTag::V.emplace_unchecked`); the helper is emitted next to the type, so user code can
+/// add inherent items to it that take over (reported by a round-6 agent).
+#[cfg(test)]
+mod f40_tag_helper_inherent_items {
+    use super::common::*;
+    #[flat(sized = false)]
+    enum Msg { A, B(u8, FlatVec<u8, u8>) }
+    impl MsgTag {
+        #[allow(dead_code)]
+        pub fn validate_unchecked(_bytes: &[u8]) -> Result<(), flatty::Error> { Ok(()) }
+    }
+    #[test]
+    fn undeclared_tag_is_refused() {
+        let mem = AlignedBytes::from_slice(&[7, 0, 0, 0], 1);
+        assert!(Msg::validate(&mem).is_err(), "tag 7 names no variant of Msg");
+    }
+}
